@@ -149,6 +149,52 @@ pub fn adaptor_case(ctx: &mut Ctx, fl: Flavour, offers: &[usize], dgrams: &[Vec<
     }
 }
 
+/// the tokio adaptor also implements the synchronous `std::io::Read` (it can be boxed into the blocking connection): the same
+/// stream of bytes comes out of it, whatever the slice sizes — small ones that leave a remainder, then roomy ones
+pub fn adaptor_sync_case(ctx: &mut Ctx, offers: &[usize], dgrams: &[Vec<u8>]) {
+    let op = format!("udp.adaptor tokio-sync {} {}", if offers.is_empty() { "-".to_string() } else { offers.iter().map(|o| o.to_string()).collect::<Vec<_>>().join(",") }, join_hex(dgrams));
+    let total: usize = dgrams.iter().map(|d| d.len().min(1020)).sum();
+    let offers2 = offers.to_vec();
+    let dg = dgrams.to_vec();
+    let chunks: Option<Vec<Vec<u8>>> = guard(std::panic::AssertUnwindSafe(move || {
+        let rt = tokio::runtime::Builder::new_current_thread().enable_all().build().unwrap();
+        rt.block_on(async move {
+            let (a, peer) = pair();
+            a.set_nonblocking(true).unwrap();
+            let mut s = insim::net::tokio_impl::UdpStream::from(tokio::net::UdpSocket::from_std(a).unwrap());
+            // everything is sent up front (the kernel queues the datagrams in order)
+            for d in &dg { peer.send(d).unwrap(); }
+            let mut out = vec![];
+            let mut served = 0usize;
+            for o in offers2 {
+                let mut buf = vec![0u8; o];
+                let mut tries = 0;
+                loop {
+                    match std::io::Read::read(&mut s, &mut buf) {
+                        Ok(n) => { served += n; out.push(buf[..n].to_vec()); break; },
+                        Err(e) if e.kind() == std::io::ErrorKind::WouldBlock && tries < 20 => { tries += 1; tokio::time::sleep(Duration::from_millis(5)).await; },
+                        Err(_) => { out.push(b"BLOCKED".to_vec()); return out; },
+                    }
+                }
+                if served >= total { break; }
+            }
+            out
+        })
+    }));
+    let res = match &chunks { None => "panic".to_string(), Some(c) => join_hex(c) };
+    ctx.case(&op, &res);
+    if let Some(c) = &chunks {
+        let got: Vec<u8> = c.iter().filter(|x| x.as_slice() != b"BLOCKED").flatten().copied().collect();
+        let want: Vec<u8> = dgrams.concat();
+        let all_small = dgrams.iter().all(|d| d.len() <= 1020);
+        if all_small && !want.starts_with(&got) {
+            ctx.violation("c08/adaptor/tokio-sync/lost-bytes", "the adaptor's synchronous read dropped, duplicated or reordered datagram bytes", &op, &hex(&want), &res);
+        } else if all_small && offers.iter().sum::<usize>() >= want.len() + offers.len() && got.len() < want.len() && c.len() < offers.len() + 1 && c.last().map(|x| x.as_slice() == b"BLOCKED").unwrap_or(false) {
+            ctx.violation("c08/adaptor/tokio-sync/stalled", "the adaptor's synchronous read stopped serving although datagram bytes were outstanding", &op, &hex(&want), &res);
+        }
+    }
+}
+
 #[derive(Clone, Debug)]
 pub enum AOp { Rd(usize), Fl, Wr(Vec<u8>), Idle, Rx(usize) }
 fn aop_tok(o: &AOp) -> String { match o { AOp::Rd(n) => n.to_string(), AOp::Fl => "f".into(), AOp::Wr(b) => format!("w{}", hex(b)), AOp::Idle => "t".into(), AOp::Rx(n) => format!("x{}", n) } }
@@ -427,7 +473,7 @@ pub fn run(ctx: &mut Ctx) {
                 ["udp.adaptor", f, offers, dg] => {
                     let o: Vec<usize> = if *offers == "-" { vec![] } else { offers.split(',').filter_map(|x| x.parse().ok()).collect() };
                     let d: Vec<Vec<u8>> = if *dg == "-" { vec![] } else { dg.split('+').map(unhex).collect() };
-                    adaptor_case(ctx, fl(f), &o, &d);
+                    if *f == "tokio-sync" { adaptor_sync_case(ctx, &o, &d); } else { adaptor_case(ctx, fl(f), &o, &d); }
                 },
                 ["udp.ops", f, ops, dg] => {
                     let o: Vec<AOp> = if *ops == "-" { vec![] } else { ops.split(',').filter_map(aop_parse).collect() };
@@ -470,6 +516,12 @@ pub fn run(ctx: &mut Ctx) {
             let offers: Vec<usize> = (0..400).map(|_| match style { 0 => 1 + ctx.rng.below(8) as usize, 1 => 1 + ctx.rng.below(300) as usize, 2 => 6120, _ => 1 + ctx.rng.below(2000) as usize }).collect();
             adaptor_case(ctx, fl, &offers, &dg);
         }
+    }
+    // the tokio adaptor through its synchronous Read: a short read that leaves a remainder, then roomy slices (>= 1020 bytes)
+    for (offers, lens) in [(vec![4usize, 2048, 2048, 2048], vec![12usize, 12]), (vec![1, 1020, 1020, 1020], vec![8, 4, 16]), (vec![3, 6120, 6120], vec![20, 1020]), (vec![4, 4, 4, 4, 4, 4], vec![12, 12]),
+                           (vec![1019, 1020, 1021, 1020], vec![1020, 1020]), (vec![7, 1500, 2, 1500, 1500], vec![9, 9, 9])] {
+        let dg: Vec<Vec<u8>> = lens.iter().enumerate().map(|(i, n)| (0..*n).map(|k| (k as u8).wrapping_mul(3).wrapping_add(i as u8 * 50 + 1)).collect()).collect();
+        adaptor_sync_case(ctx, &offers, &dg);
     }
     // both halves of one adaptor: flushes and writes between the reads of a datagram served in pieces
     for fl in [Flavour::Blocking, Flavour::Tokio] {
